@@ -494,10 +494,16 @@ func (s *Serializer) atx(b *Block) sline {
 	return sline{text: text, role: roleSyntax}
 }
 
-func longestRun(lines []string, ch byte) int {
+// longestRun: the longest fence-like line of character ch that could close a
+// fence, i.e. one indented at most three columns once ind columns of
+// indentation (that of the opening fence) are added in front of it.
+func longestRun(lines []string, ch byte, ind int) int {
 	best := 0
 	for _, l := range lines {
 		t := strings.TrimLeft(l, " ")
+		if len(l)-len(t)+ind > 3 || strings.HasPrefix(t, "\t") {
+			continue
+		}
 		n := 0
 		for n < len(t) && t[n] == ch {
 			n++
@@ -517,16 +523,6 @@ func (s *Serializer) fenced(b *Block) []sline {
 	if ch == '`' && strings.Contains(b.Info, "`") {
 		ch = '~'
 	}
-	n := 3
-	if r := longestRun(b.Lines, ch); r >= n {
-		n = r + 1
-	}
-	n += s.C.Dev(2)
-	closeN := n + s.C.Dev(2)
-	open := strings.Repeat(string(ch), n)
-	if b.Info != "" {
-		open += []string{"", " "}[s.C.Dev(2)] + b.Info
-	}
 	// The opening fence may be indented 1-3 columns; that many columns of
 	// indentation are then removed from every content line, so the content lines
 	// are written with the same indentation in front. The closing fence has its
@@ -538,6 +534,16 @@ func (s *Serializer) fenced(b *Block) []sline {
 	}
 	if !hasTab {
 		ind = strings.Repeat(" ", []int{0, 1, 3}[s.C.Dev(3)])
+	}
+	n := 3
+	if r := longestRun(b.Lines, ch, len(ind)); r >= n {
+		n = r + 1
+	}
+	n += s.C.Dev(2)
+	closeN := n + s.C.Dev(2)
+	open := strings.Repeat(string(ch), n)
+	if b.Info != "" {
+		open += []string{"", " "}[s.C.Dev(2)] + b.Info
 	}
 	closeInd := strings.Repeat(" ", []int{0, 3}[s.C.Dev(2)])
 	out := []sline{{text: ind + open, role: roleSyntax}}
